@@ -194,6 +194,24 @@ def run(chk, repo, tier):
                  key='Group.__init__',
                  what='Group stores centre and peripherals and names itself '
                       'by _canonical_name() on every construction')
+    # a live `__ne__` (or ordering method) on Descriptor or a subclass must
+    # be the complement of `__eq__`, string operand included (a misspelt
+    # `__neq__` is dead code: Python derives != from __eq__)
+    for cname in ('Descriptor', 'Group'):
+        for mname, f in repo.methods(GRP, cname).items():
+            if mname == '__ne__':
+                refcmp.check(chk, 'R19.1', GRP, f,
+                             "def f(self, other):\n"
+                             "    return not (self == other)\n",
+                             key='%s.__ne__' % cname,
+                             what='%s.__ne__ is `not (self == other)` (so a '
+                                  'group and its canonical name as a plain '
+                                  'string never compare both equal and '
+                                  'unequal)' % cname)
+            elif mname in ('__lt__', '__le__', '__gt__', '__ge__',
+                           '__cmp__'):
+                chk.ob('R19.1', False, GRP, f, key='%s.%s' % (cname, mname),
+                       what='%s defines no ordering of its own' % cname)
     refcmp.check(chk, 'R19.2', GRP, gm['_canonical_name'], REF_CANON,
                  key='Group._canonical_name',
                  what='canonical name = centre + peripherals in sorted '
